@@ -78,6 +78,10 @@ class C19(Prop):
               nontrivial = seen_hook and seen_mark
         if len(run.exp_full) == spytrace.RING:
           classes.append("ring_wrapped")
+      except spytrace.Desync:
+        # the handlers' actions ran in another order / number than the model predicts (a chart
+        # whose exit action queries the chart mid-transition, C01/C02 domain): not comparable
+        stats.exclude("desync_actions_or_capacity")
       except HarnessBound as e:
         raise PropertyViolation("did not terminate: %s" % e, "C19:hang")
       except PropertyViolation:
